@@ -62,7 +62,7 @@ CHECKS = {
     },
     'C15': {
         'text': 'Triangular / trim / quad tessellators through Surface.tessellate for sample sizes and vertex spacings of the family: ids consecutive, faces reference existing vertices, vertex positions == Cox-de Boor definition at the stored (u,v) for ALL control points/weights; the concrete (u,v) triangles cover EVERY symbolic query point of the open square exactly once with one orientation (+ edge sharing, Euler characteristic 1); rectangular trims (both senses) remove exactly the trimmed region up to one cell; OBJ/OFF/ASCII-STL of 1-3 surfaces parse back to exactly this mesh (offsets, counts, facet normals).',
-        'note': COMMON_NOTE + 'Bounds: sample sizes 2..6 (9), spacings 1..3 (4); binary STL and vertex normals outside; float drift of the accumulated parameter outside.',
+        'note': COMMON_NOTE + 'Bounds: sample sizes 2..6 (9), spacings 1..3 (4); binary STL through a struct.pack model (exact fields, no binary32 rounding); OBJ vertex normals outside; float drift of the accumulated parameter outside.',
     },
     'C16': {
         'text': 'lu_solve / lu_factor / matrix_inverse / matrix_determinant / matrix_pivot / lu_decomposition satisfy A x = b, A A^-1 = I, Leibniz, genuine permutation, L U = A for ALL symbolic matrices of the stated sizes on every pivoting path; diagonally dominant and collocation matrices always return; two-call histories (memoised identity matrix); vector/matrix helpers, binomial, linspace, frange equal their definitions.',
